@@ -1,12 +1,14 @@
 """The decision-logic functions of TLExport, translated from the tree under test into Lean on every run
-(`lean/TLX/Gen/Translated.lean`, namespace `TLX.Gen.Py`) and proved EQUAL to the hand-written model functions in
-`lean/TLX/Props/Translated.lean`. A source change that alters what such a function computes alters the generated
+(`lean/TLX/Gen/Translated/<Group>.lean`, namespace `TLX.Gen.Py`) and proved EQUAL to the hand-written model functions in
+`lean/TLX/Props/Translated/<Group>.lean`. A source change that alters what such a function computes alters the generated
 definition, the equality no longer checks, and the proof stage fails — no sampling involved.
 
   regen()     re-translate from `fw.REPO`; returns {file: sha256} for `ctx.gen_tables`. A function that left the subset
-              raises `TranslatorProblem` (carrying `.problems`, each a proof problem of kind "translator"); the file is
-              still written, with the definitions that could be translated, so the build then fails at the theorem
-              about the missing one as well.
+              raises `TranslatorProblem` (carrying `.problems`, each a proof problem of kind "translator" naming its
+              group); the files are still written, with the definitions that could be translated, so the build of that
+              group then fails at the theorem about the missing one as well — the other groups are not affected.
+  wire(ctx, "Cxx")  what a check calls: regenerates, records the translator problems of the groups the property rests on
+              (`CHECK_GROUPS`), returns (modules, theorems) to add to `ctx.prove` / `ctx.require_theorems`.
   selftest()  translator against CPython: every translated definition is evaluated by Lean on sampled inputs and
               compared with the Python function itself (guards the translator and `PyRt.lean`, not the tool).
 """
@@ -20,13 +22,13 @@ import extract
 import py2lean
 from py2lean import Untranslatable
 
-MODULES = ["TLX.Props.Translated"]
 
 HT = "TLX.Quic.HType"
 PT = "TLX.Quic.PType"
 VER = "TLX.Session.Ver"
 QDEC = "TLX.Quic.Session.Dec"
 MLV = "TLX.MainLoop.Version"
+SEG = "TLX.Reassembly.Seg"
 
 HTYPE = {"QuicHeaderType.LONG": (f"{HT}.long", HT), "QuicHeaderType.SHORT": (f"{HT}.short", HT)}
 PTYPE = {f"QuicPacketType.{a}": (f"{PT}.{b}", PT) for a, b in
@@ -35,48 +37,69 @@ PTYPE = {f"QuicPacketType.{a}": (f"{PT}.{b}", PT) for a, b in
 TLSVER = {f"TlsVersion.{a}": (f"{VER}.{b}", VER) for a, b in
           [("SSL30", "ssl30"), ("TLS10", "tls10"), ("TLS11", "tls11"), ("TLS12", "tls12"), ("TLS13", "tls13")]}
 
-IMPORTS = ["TLX.PyRt", "TLX.Quic.Packet", "TLX.Quic.Session", "TLX.Session", "TLX.MainLoop"]
-DECLS = ["/-- the two handlers `run()` hands a frame to -/\ninductive RunAct | tls | quic\n  deriving DecidableEq, Repr\n"]
+# one generated file per group (`lean/TLX/Gen/Translated/<Group>.lean`): a definition that no longer elaborates, or a
+# function that left the subset, only blocks the theorems of its own group
+GROUPS = {
+    "Pn": dict(imports=["TLX.PyRt", "TLX.Quic.Packet"], decls=[]),
+    "Varint": dict(imports=["TLX.PyRt"], decls=[]),
+    "QuicDissect": dict(imports=["TLX.PyRt", "TLX.Quic.Packet", "TLX.MainLoop"], decls=[]),
+    "QuicSess": dict(imports=["TLX.PyRt", "TLX.Quic.Session"], decls=[]),
+    "Demux": dict(imports=["TLX.PyRt"],
+                  decls=["/-- the two handlers `run()` hands a frame to -/\ninductive RunAct | tls | quic\n  deriving DecidableEq, Repr\n"]),
+    "Ports": dict(imports=["TLX.PyRt"], decls=[]),
+    "TlsSess": dict(imports=["TLX.PyRt", "TLX.Session"], decls=[]),
+    "Reasm": dict(imports=["TLX.PyRt", "TLX.Reassembly"], decls=[]),
+}
 
 SPECS = [
-    dict(name="get_header_type", file="tlexport/quic/quic_dissector.py", func="get_header_type",
+    dict(name="get_header_type", group="QuicDissect", file="tlexport/quic/quic_dissector.py", func="get_header_type",
          params=[("datagram_data", "Bytes")], ret=HT, consts=HTYPE),
-    dict(name="get_packet_type", file="tlexport/quic/quic_dissector.py", func="get_packet_type",
+    dict(name="get_packet_type", group="QuicDissect", file="tlexport/quic/quic_dissector.py", func="get_packet_type",
          params=[("datagram_data", "Bytes")], ret=f"Option {PT}", consts=PTYPE),
-    dict(name="get_variable_length_int_length", file="tlexport/quic/quic_decode.py", func="get_variable_length_int_length",
+    dict(name="get_variable_length_int_length", group="Varint", file="tlexport/quic/quic_decode.py", func="get_variable_length_int_length",
          params=[("first_byte_of_variable_int", "Bytes")], ret="Nat"),
-    dict(name="decode_variable_length_int", file="tlexport/quic/quic_decode.py", func="decode_variable_length_int",
+    dict(name="decode_variable_length_int", group="Varint", file="tlexport/quic/quic_decode.py", func="decode_variable_length_int",
          params=[("variable_integer", "Bytes")], ret="Nat"),
-    dict(name="get_full_packet_number", file="tlexport/quic/quic_session.py", func="QuicSession.get_full_packet_number",
+    dict(name="get_full_packet_number", group="Pn", file="tlexport/quic/quic_session.py", func="QuicSession.get_full_packet_number",
          params=[], ret="Bytes",
          places=[("quic_packet.isserver", "isserver", "Bool", "r"), ("quic_packet.packet_num", "packet_num", "Bytes", "r"),
                  ("self.packet_number_server[PACKET_TYPE_MAP[quic_packet.packet_type]]", "pn_server", "Int", "rw"),
                  ("self.packet_number_client[PACKET_TYPE_MAP[quic_packet.packet_type]]", "pn_client", "Int", "rw")]),
+    # the tables the places of get_full_packet_number are read from: PACKET_TYPE_MAP and the two dicts of
+    # set_packet_number_spaces (dict displays of enum members, tuples and ints: emitted as association lists)
+    dict(name="PACKET_TYPE_MAP", group="Pn", kind="table", file="tlexport/quic/quic_session.py", func=None,
+         target="PACKET_TYPE_MAP", type=f"List ({PT} × List {PT})", consts=PTYPE, theorem="packet_number_spaces_eq_model"),
+    dict(name="packet_number_server_init", group="Pn", kind="table", file="tlexport/quic/quic_session.py",
+         func="QuicSession.set_packet_number_spaces", target="self.packet_number_server", type=f"List (List {PT} × Int)",
+         consts=PTYPE, theorem="packet_number_spaces_eq_model"),
+    dict(name="packet_number_client_init", group="Pn", kind="table", file="tlexport/quic/quic_session.py",
+         func="QuicSession.set_packet_number_spaces", target="self.packet_number_client", type=f"List (List {PT} × Int)",
+         consts=PTYPE, theorem="packet_number_spaces_eq_model"),
     # check_key_epoch: the epoch flip (first statement) and the test of the second `if`; the body of the second `if`
     # calls key_update (cryptography) and is not translated
-    dict(name="check_key_epoch_flip", file="tlexport/quic/quic_session.py", func="QuicSession.check_key_epoch",
+    dict(name="check_key_epoch_flip", group="QuicSess", file="tlexport/quic/quic_session.py", func="QuicSession.check_key_epoch",
          select={"start": "if isserver:"}, params=[("key_phase_bit", "Option Nat"), ("isserver", "Bool")],
          places=[("self.epoch_server", "epoch_server", "Nat", "rw"), ("self.last_key_phase_server", "last_key_phase_server", "Option Nat", "rw"),
                  ("self.epoch_client", "epoch_client", "Nat", "rw"), ("self.last_key_phase_client", "last_key_phase_client", "Option Nat", "rw")]),
-    dict(name="check_key_epoch_extend_test", file="tlexport/quic/quic_session.py", func="QuicSession.check_key_epoch",
+    dict(name="check_key_epoch_extend_test", group="QuicSess", file="tlexport/quic/quic_session.py", func="QuicSession.check_key_epoch",
          select={"if_test": "if self.epoch_client == len("}, params=[],
          places=[("self.epoch_client", "epoch_client", "Nat", "r"), ("self.epoch_server", "epoch_server", "Nat", "r"),
                  ("self.decryptors['Application']", "application", f"List {QDEC}", "r")]),
-    dict(name="packet_isserver", file="tlexport/quic/quic_session.py", func="QuicSession.packet_isserver",
+    dict(name="packet_isserver", group="QuicSess", file="tlexport/quic/quic_session.py", func="QuicSession.packet_isserver",
          params=[("dcid", "Bytes")], ret="Bool",
          places=[("self.server_cids", "server_cids", "Set Bytes", "r"), ("self.client_cids", "client_cids", "Set Bytes", "r"),
                  ("packet.ip_src", "ip_src", "Bytes", "r"), ("packet.sport", "sport", "Nat", "r"),
                  ("self.client_ip", "client_ip", "Bytes", "r"), ("self.client_port", "client_port", "Nat", "r")]),
-    dict(name="matches_session_dgram", file="tlexport/quic/quic_session.py", func="QuicSession.matches_session_dgram",
+    dict(name="matches_session_dgram", group="QuicSess", file="tlexport/quic/quic_session.py", func="QuicSession.matches_session_dgram",
          params=[("ip_src", "Bytes"), ("ip_dst", "Bytes"), ("sport", "Nat"), ("dport", "Nat")], ret="Bool",
          places=[("self.server_ip", "server_ip", "Bytes", "r"), ("self.server_port", "server_port", "Nat", "r"),
                  ("self.client_ip", "client_ip", "Bytes", "r"), ("self.client_port", "client_port", "Nat", "r")]),
-    dict(name="matches_session", file="tlexport/session.py", func="Session.matches_session", params=[], ret="Bool",
+    dict(name="matches_session", group="Demux", file="tlexport/session.py", func="Session.matches_session", params=[], ret="Bool",
          places=[("packet.ip_src", "ip_src", "Bytes", "r"), ("packet.ip_dst", "ip_dst", "Bytes", "r"),
                  ("packet.sport", "sport", "Nat", "r"), ("packet.dport", "dport", "Nat", "r"),
                  ("self.server_ip", "server_ip", "Bytes", "r"), ("self.server_port", "server_port", "Nat", "r"),
                  ("self.client_ip", "client_ip", "Bytes", "r"), ("self.client_port", "client_port", "Nat", "r")]),
-    dict(name="set_client_and_server_ports", file="tlexport/session.py", func="Session.set_client_and_server_ports",
+    dict(name="set_client_and_server_ports", group="Ports", file="tlexport/session.py", func="Session.set_client_and_server_ports",
          params=[("server_ports", "List Int")], ret="None",
          places=[("packet.ipv6_packet", "ipv6_packet", "Bool", "r"),
                  ("packet.ip_src", "ip_src", "Bytes", "r"), ("packet.ip_dst", "ip_dst", "Bytes", "r"),
@@ -87,12 +110,12 @@ SPECS = [
                  ("self.server_mac_addr", "server_mac_addr", "Bytes", "rw"),
                  ("self.client_ip", "client_ip", "Bytes", "rw"), ("self.client_port", "client_port", "Nat", "rw"),
                  ("self.client_mac_addr", "client_mac_addr", "Bytes", "rw")]),
-    dict(name="handle_alert", file="tlexport/session.py", func="Session.handle_alert",
+    dict(name="handle_alert", group="TlsSess", file="tlexport/session.py", func="Session.handle_alert",
          params=[("alert_level", "Nat")], ret="None", consts=TLSVER,
          places=[("self.tls_version", "tls_version", f"Option {VER}", "r"),
                  ("self.can_decrypt", "can_decrypt", "Bool", "rw"), ("self.client_hello_seen", "client_hello_seen", "Bool", "rw")]),
     # `handshake_13_buffer` (a dict keyed by direction) is seen as the pair of its `.get(False, b"")`, `.get(True, b"")`
-    dict(name="handle_tls_client_hello", file="tlexport/session.py", func="Session.handle_tls_client_hello",
+    dict(name="handle_tls_client_hello", group="TlsSess", file="tlexport/session.py", func="Session.handle_tls_client_hello",
          params=[], ret="None", empty_dict={"Bytes × Bytes": "(([], []) : Bytes × Bytes)"},
          places=[("record.binary", "binary", "Bytes", "r"),
                  ("self.can_decrypt", "can_decrypt", "Bool", "rw"), ("self.server_cipher_change", "server_cipher_change", "Bool", "rw"),
@@ -101,36 +124,74 @@ SPECS = [
                  ("self.client_random", "client_random", "Option Bytes", "rw"),
                  ("self.client_hello_seen", "client_hello_seen", "Bool", "rw")]),
     # handle_tls_server_hello: the version choice at its end (the `match` statement)
-    dict(name="server_hello_version", file="tlexport/session.py", func="Session.handle_tls_server_hello",
+    dict(name="server_hello_version", group="TlsSess", file="tlexport/session.py", func="Session.handle_tls_server_hello",
          select={"start": "match int.from_bytes(record.record_version"}, params=[("is_tls13", "Bool")], consts=TLSVER,
          places=[("record.record_version", "record_version", "Bytes", "r"), ("record.binary", "binary", "Bytes", "r"),
                  ("self.tls_version", "tls_version", f"Option {VER}", "rw"), ("self.can_decrypt", "can_decrypt", "Bool", "rw")]),
-    dict(name="server_hello_latch", file="tlexport/session.py", func="Session.handle_tls_server_hello",
+    dict(name="server_hello_latch", group="TlsSess", file="tlexport/session.py", func="Session.handle_tls_server_hello",
          select={"start": "if self.client_hello_seen:"}, params=[],
          places=[("self.client_hello_seen", "client_hello_seen", "Bool", "r"), ("self.can_decrypt", "can_decrypt", "Bool", "rw")]),
+    # TCP reassembly (session.py): the duplicate test of handle_packet and, of extract_*_buf, the test that the stream
+    # continues at `base`, the contiguity test between neighbours and the next expected sequence number (mod 2^32);
+    # the rest of extract_*_buf (min/sort with key functions, `while True`, bytearray) is outside the subset
+    dict(name="session_handle_packet", group="Reasm", file="tlexport/session.py", func="Session.handle_packet",
+         params=[("packet", SEG)], ret="None",
+         places=[("packet.seq", "seq", "Nat", "r"), ("packet.ip_src", "ip_src", "Bytes", "r"), ("packet.sport", "sport", "Nat", "r"),
+                 ("self.server_ip", "server_ip", "Bytes", "r"), ("self.server_port", "server_port", "Nat", "r"),
+                 ("self.seen_packets_server", "seen_packets_server", "List Nat", "rw"),
+                 ("self.seen_packets_client", "seen_packets_client", "List Nat", "rw"),
+                 ("self.packet_buffer", "packet_buffer", f"List {SEG}", "rw")]),
+    dict(name="extract_server_head_test", group="Reasm", file="tlexport/session.py", func="Session.extract_server_buf",
+         select={"if_test": "if self.server_packet_buffer[0].seq != base"}, params=[("base", "Nat")],
+         places=[("self.server_packet_buffer[0].seq", "seq0", "Nat", "r")]),
+    dict(name="extract_server_gap_test", group="Reasm", file="tlexport/session.py", func="Session.extract_server_buf",
+         select={"if_test": "if (self.server_packet_buffer[i].seq + len("}, params=[],
+         places=[("self.server_packet_buffer[i].seq", "seq_i", "Nat", "r"), ("self.server_packet_buffer[i].tls_data", "data_i", "Bytes", "r"),
+                 ("self.server_packet_buffer[i + 1].seq", "seq_next", "Nat", "r")]),
+    dict(name="extract_server_sort_key", group="Reasm", file="tlexport/session.py", func="Session.extract_server_buf",
+         select={"lambda_in": "self.server_packet_buffer.sort("}, params=[("base", "Nat")], places=[("x.seq", "seq", "Nat", "r")]),
+    dict(name="extract_server_presync_key", group="Reasm", file="tlexport/session.py", func="Session.extract_server_buf",
+         select={"lambda_in": "base = min(self.server_packet_buffer"}, params=[("first", "Nat")], places=[("x.seq", "seq", "Nat", "r")]),
+    dict(name="extract_server_next_seq", group="Reasm", file="tlexport/session.py", func="Session.extract_server_buf",
+         select={"start": "self.server_next_seq = (base + total_packet_len)"}, params=[("base", "Nat"), ("total_packet_len", "Nat")],
+         places=[("self.server_next_seq", "next_seq", "Option Nat", "rw")]),
+    dict(name="extract_client_head_test", group="Reasm", file="tlexport/session.py", func="Session.extract_client_buf",
+         select={"if_test": "if self.client_packet_buffer[0].seq != base"}, params=[("base", "Nat")],
+         places=[("self.client_packet_buffer[0].seq", "seq0", "Nat", "r")]),
+    dict(name="extract_client_gap_test", group="Reasm", file="tlexport/session.py", func="Session.extract_client_buf",
+         select={"if_test": "if (self.client_packet_buffer[i].seq + len("}, params=[],
+         places=[("self.client_packet_buffer[i].seq", "seq_i", "Nat", "r"), ("self.client_packet_buffer[i].tls_data", "data_i", "Bytes", "r"),
+                 ("self.client_packet_buffer[i + 1].seq", "seq_next", "Nat", "r")]),
+    dict(name="extract_client_sort_key", group="Reasm", file="tlexport/session.py", func="Session.extract_client_buf",
+         select={"lambda_in": "self.client_packet_buffer.sort("}, params=[("base", "Nat")], places=[("x.seq", "seq", "Nat", "r")]),
+    dict(name="extract_client_presync_key", group="Reasm", file="tlexport/session.py", func="Session.extract_client_buf",
+         select={"lambda_in": "base = min(self.client_packet_buffer"}, params=[("first", "Nat")], places=[("x.seq", "seq", "Nat", "r")]),
+    dict(name="extract_client_next_seq", group="Reasm", file="tlexport/session.py", func="Session.extract_client_buf",
+         select={"start": "self.client_next_seq = (base + total_packet_len)"}, params=[("base", "Nat"), ("total_packet_len", "Nat")],
+         places=[("self.client_next_seq", "next_seq", "Option Nat", "rw")]),
     # main.py handle_quic_packet: the head (what is read from a long header; `return` on a long header in < 6 bytes) …
-    dict(name="quic_header", file="tlexport/main.py", func="handle_quic_packet",
+    dict(name="quic_header", group="QuicDissect", file="tlexport/main.py", func="handle_quic_packet",
          select={"start": "quic_version = QuicVersion.UNKNOWN", "end": "if header_type == QuicHeaderType.LONG:\n    if len(packet_payload)"},
          params=[("header_type", HT), ("packet_payload", "Bytes")], exits=True,
          consts={**HTYPE, **{f"QuicVersion.{a}": (f"{MLV}.{b}", MLV) for a, b in [("V1", "v1"), ("V2", "v2"), ("UNKNOWN", "unknown")]}},
          outs=[("dcid", "Bytes"), ("quic_version", MLV)]),
     # … the long-header CID test, the short-header candidate choice and the per-candidate test (the sort of the
     # candidates — `sorted(…, key=lambda …)` — is outside the subset: `MainLoop.sortCids` stays tied by sampling)
-    dict(name="quic_long_cid_test", file="tlexport/main.py", func="handle_quic_packet",
+    dict(name="quic_long_cid_test", group="Demux", file="tlexport/main.py", func="handle_quic_packet",
          select={"if_test": "if len(dcid) > 0 and (dcid in session.client_cids"}, params=[("dcid", "Bytes")],
          places=[("session.client_cids", "client_cids", "Set Bytes", "r"), ("session.server_cids", "server_cids", "Set Bytes", "r")]),
-    dict(name="quic_short_candidates", file="tlexport/main.py", func="handle_quic_packet",
+    dict(name="quic_short_candidates", group="Demux", file="tlexport/main.py", func="handle_quic_packet",
          select={"start": "candidates = session.client_cids | session.server_cids", "end": "if session.matches_session_dgram("},
          params=[], outs=[("candidates", "Set Bytes")],
          places=[("session.client_cids", "client_cids", "Set Bytes", "r"), ("session.server_cids", "server_cids", "Set Bytes", "r"),
                  ("session.matches_session_dgram(packet.ip_src, packet.ip_dst, packet.sport, packet.dport)", "on_tuple", "Bool", "r"),
                  ("packet.ip_src", "ip_src", "Bytes", "r"), ("packet.sport", "sport", "Nat", "r"),
                  ("session.client_ip", "client_ip", "Bytes", "r"), ("session.client_port", "client_port", "Nat", "r")]),
-    dict(name="quic_short_cid_test", file="tlexport/main.py", func="handle_quic_packet",
+    dict(name="quic_short_cid_test", group="Demux", file="tlexport/main.py", func="handle_quic_packet",
          select={"within": "for cid in sorted(", "if_test": "if "}, params=[("cid", "Bytes"), ("packet_payload", "Bytes")]),
     # main.py run(): what happens to one frame of the capture (the statement `if packet.tcp_packet: … elif packet.udp_packet: …`
     # of the loop body); the checksum functions are inputs, the two handlers are trace entries
-    dict(name="run_classify", file="tlexport/main.py", func="run", select={"start": "if packet.tcp_packet:"}, params=[], exits=True,
+    dict(name="run_classify", group="Demux", file="tlexport/main.py", func="run", select={"start": "if packet.tcp_packet:"}, params=[], exits=True,
          places=[("packet.tcp_packet", "tcp_packet", "Bool", "r"), ("packet.udp_packet", "udp_packet", "Bool", "r"),
                  ("packet.tls_data", "tls_data", "Bytes", "r"), ("args.checksumTest", "checksumTest", "Bool", "r"),
                  ("args.greasy", "greasy", "Bool", "r"),
@@ -139,14 +200,14 @@ SPECS = [
                   "handle_quic_packet(packet, keylog, quic_sessions, portmap, keep_original_ports)": "RunAct.quic"},
          action_type="RunAct"),
     # the exported server port (and the initial sequence numbers) as both output builders' __init__ set them
-    dict(name="output_builder_init", file="tlexport/output_builder.py", func="OutputBuilder.__init__", ret="None",
+    dict(name="output_builder_init", group="Ports", file="tlexport/output_builder.py", func="OutputBuilder.__init__", ret="None",
          params=[("server_port", "Nat"), ("client_port", "Nat"), ("portmap", "Dict Nat Nat"), ("keep_original_ports", "Bool")],
          ignore_writes=["self.decrypted_records", "self.server_ip", "self.client_ip", "self.server_mac_addr", "self.client_mac_addr",
                         "self.out", "self.ipv6"],
          places=[("self.server_port", "server_port_", "Nat", "rw"), ("self.client_port", "client_port_", "Nat", "rw"),
                  ("self.default_port", "default_port", "Nat", "rw"),
                  ("self.server_seq", "server_seq", "Nat", "rw"), ("self.client_seq", "client_seq", "Nat", "rw")]),
-    dict(name="quic_output_builder_init", file="tlexport/quic/quic_output_builder.py", func="QUICOutputbuilder.__init__", ret="None",
+    dict(name="quic_output_builder_init", group="Ports", file="tlexport/quic/quic_output_builder.py", func="QUICOutputbuilder.__init__", ret="None",
          params=[("server_port", "Nat"), ("client_port", "Nat"), ("portmap", "Dict Nat Nat"), ("keep_original_ports", "Bool")],
          ignore_writes=["self.decrypted_traffic", "self.server_ip", "self.client_ip", "self.server_mac_address",
                         "self.client_mac_address", "self.out", "self.ipv6"],
@@ -154,7 +215,43 @@ SPECS = [
                  ("self.default_port", "default_port", "Nat", "rw")]),
 ]
 
-THEOREMS = ["TLX.Props.Translated." + s["name"] + "_eq_model" for s in SPECS]
+def theorem_of(spec):
+    return "TLX.Props.Translated." + spec.get("theorem", spec["name"] + "_eq_model")
+
+
+def _uniq(xs):
+    return list(dict.fromkeys(xs))
+
+
+THEOREMS = _uniq(theorem_of(s) for s in SPECS)
+
+
+def group_modules(groups):
+    """the theorem modules of these groups (`lean/TLX/Props/Translated/<Group>.lean`)"""
+    return ["TLX.Props.Translated." + g for g in groups]
+
+
+def group_theorems(groups):
+    return _uniq(theorem_of(s) for s in SPECS if s["group"] in groups)
+
+
+MODULES = group_modules(GROUPS)          # all groups (`TLX.Props.Translated` imports them)
+
+# property → the groups whose translated functions its model functions are (what the check proves besides its own modules)
+CHECK_GROUPS = {
+    "C01": ["TlsSess"],
+    "C02": ["QuicDissect", "QuicSess", "Pn", "Varint"],
+    "C03": ["TlsSess", "QuicDissect"],
+    "C04": ["Demux", "QuicSess", "QuicDissect"],
+    "C05": ["Reasm"],
+    "C07": ["Ports"],
+    "C10": ["Ports"],
+    "C13": ["TlsSess"],
+    "C16": ["Pn"],
+    "C17": ["Varint"],
+    "C18": ["Demux"],
+}
+BY_CHECK = {c: (group_modules(g), group_theorems(g)) for c, g in CHECK_GROUPS.items()}
 
 
 class TranslatorProblem(Exception):
@@ -168,22 +265,59 @@ def repo():
     return fw.REPO
 
 
+def table_term(node, spec, fname):
+    """a dict / tuple / list display of spec constants and int literals as a Lean term (dict → association list in
+    display order; `PyRt.tableGet` looks up the LAST entry of a key, as a dict display keeps the last value)"""
+    k = ast.unparse(node)
+    if k in spec["consts"]:
+        return spec["consts"][k][0]
+    if isinstance(node, ast.Constant) and isinstance(node.value, int) and not isinstance(node.value, bool):
+        return str(node.value) if node.value >= 0 else f"({node.value})"
+    if isinstance(node, (ast.Tuple, ast.List)):
+        return "[" + ", ".join(table_term(e, spec, fname) for e in node.elts) + "]"
+    if isinstance(node, ast.Dict) and all(key is not None for key in node.keys):
+        return "[" + ", ".join(f"({table_term(a, spec, fname)}, {table_term(b, spec, fname)})" for a, b in zip(node.keys, node.values)) + "]"
+    raise Untranslatable(fname, node, "table entry that is not a spec constant, an int literal, a tuple/list or a dict display")
+
+
+def translate_table(tree, text, spec):
+    """`target = <display>`: a module-level assignment (`func=None`) or the one assignment to `target` in a function body"""
+    fname = spec["func"] or "<module>"
+    if spec["func"] is None:
+        body, scope = tree.body, None
+    else:
+        scope = py2lean.find_function(tree, spec["func"])
+        if scope is None:
+            raise Untranslatable(fname, tree, f"function not found in {spec['file']}")
+        body = [n for n in ast.walk(scope) if isinstance(n, ast.stmt)]
+    hits = [n for n in body if isinstance(n, (ast.Assign, ast.AnnAssign))
+            and any(ast.unparse(t) == spec["target"] for t in (n.targets if isinstance(n, ast.Assign) else [n.target]))]
+    if len(hits) != 1 or (isinstance(hits[0], ast.Assign) and len(hits[0].targets) != 1) or hits[0].value is None:
+        raise Untranslatable(fname, scope or tree, f"{len(hits)} assignments to `{spec['target']}` (exactly one plain assignment expected)")
+    st = hits[0]
+    seg = "\n".join(text.splitlines()[st.lineno - 1:st.end_lineno])
+    h = hashlib.sha256(seg.encode()).hexdigest()[:16]
+    return (f"/- `{spec['target']}` ({fname}): {spec['file']} lines {st.lineno}-{st.end_lineno}, sha256[:16] of the source text {h} -/\n"
+            f"def {spec['name']} : {spec['type']} :=\n  {table_term(st.value, spec, fname)}\n")
+
+
 def translate_all(root, specs=None):
-    """→ (Lean text, problems)"""
+    """→ ({file name under lean/TLX/Gen: Lean text}, problems); each problem names its group"""
     specs = SPECS if specs is None else specs
-    out = ["/- GENERATED by harness/translate.py (py2lean) from the Python sources of the tree under test — do not edit.",
-           "   One definition per translated function; the meaning of the operations is `TLX/PyRt.lean`. -/"]
-    out += [f"import {m}" for m in IMPORTS]
-    out += ["namespace TLX.Gen.Py", "open TLX", ""] + DECLS
+    body = {g: [] for g in GROUPS}
     problems = []
     cache = {}
     for spec in specs:
+        out = body[spec["group"]]
         path = os.path.join(root, spec["file"])
         try:
             if path not in cache:
                 text = open(path).read()
                 cache[path] = (text, ast.parse(text))
             text, tree = cache[path]
+            if spec.get("kind") == "table":
+                out.append(translate_table(tree, text, spec))
+                continue
             fn = py2lean.find_function(tree, spec["func"])
             if fn is None:
                 raise Untranslatable(spec["func"], tree, f"function not found in {spec['file']}")
@@ -193,32 +327,54 @@ def translate_all(root, specs=None):
             out.append(f"/- `{spec['func']}`: {spec['file']} lines {lo}-{hi}{sel}, sha256[:16] of the source text {h} -/")
             out.append(lean)
         except Untranslatable as e:
-            problems.append({"kind": "translator", "function": spec["func"], "file": spec["file"], "lean": spec["name"],
-                             "line": getattr(e.node, "lineno", None), "reason": e.reason, "error": str(e)})
+            problems.append({"kind": "translator", "group": spec["group"], "function": spec["func"] or spec.get("target"), "file": spec["file"],
+                             "lean": spec["name"], "line": getattr(e.node, "lineno", None), "reason": e.reason, "error": str(e)})
             out.append(f"/- `{spec['func']}` ({spec['file']}) is OUTSIDE THE SUBSET now: {str(e).replace('-/', '- /')} -/\n")
         except (OSError, SyntaxError) as e:
-            problems.append({"kind": "translator", "function": spec["func"], "file": spec["file"], "lean": spec["name"],
-                             "line": None, "reason": repr(e), "error": f"{spec['file']}: {e!r}"})
+            problems.append({"kind": "translator", "group": spec["group"], "function": spec["func"], "file": spec["file"],
+                             "lean": spec["name"], "line": None, "reason": repr(e), "error": f"{spec['file']}: {e!r}"})
             out.append(f"/- `{spec['func']}` ({spec['file']}) could not be read/parsed -/\n")
-    out += ["end TLX.Gen.Py", ""]
-    return "\n".join(out), problems
+    files = {}
+    for g, cfg in GROUPS.items():
+        head = ["/- GENERATED by harness/translate.py (py2lean) from the Python sources of the tree under test — do not edit.",
+                f"   Group {g}: one definition per translated function; the meaning of the operations is `TLX/PyRt.lean`. -/"]
+        head += [f"import {m}" for m in cfg["imports"]]
+        head += ["namespace TLX.Gen.Py", "open TLX", ""] + cfg["decls"]
+        files[f"Translated/{g}.lean"] = "\n".join(head + body[g] + ["end TLX.Gen.Py", ""])
+    files["Translated.lean"] = "\n".join(
+        ["/- GENERATED by harness/translate.py — do not edit. All groups of translated definitions. -/"]
+        + [f"import TLX.Gen.Translated.{g}" for g in GROUPS] + [""])
+    return files, problems
 
 
 def regen(root=None):
-    text, problems = translate_all(root or repo())
-    shas = {"Translated.lean": extract.write_if_changed("Translated.lean", text)}
+    """Writes `lean/TLX/Gen/Translated/<Group>.lean` and `lean/TLX/Gen/Translated.lean`; → {file: sha256}."""
+    files, problems = translate_all(root or repo())
+    os.makedirs(os.path.join(extract.GEN, "Translated"), exist_ok=True)
+    shas = {name: extract.write_if_changed(name, text) for name, text in files.items()}
     if problems:
         raise TranslatorProblem(problems, shas)
     return shas
 
 
-def regen_into(ctx, root=None):
-    """what a check calls before `ctx.prove(MODULES)`: records translator problems as proof problems"""
+def regen_into(ctx, root=None, check=None):
+    """What a check calls before `ctx.prove`: regenerates every group (cheap) and records translator problems as proof
+    problems — with `check` given, only those of the groups that check uses (`CHECK_GROUPS`)."""
+    groups = set(GROUPS) if check is None else set(CHECK_GROUPS.get(check, []))
     try:
-        ctx.gen_tables.update(regen(root))
+        shas, problems = regen(root), []
     except TranslatorProblem as e:
-        ctx.gen_tables.update(e.shas)
-        ctx.proof_problems.extend(e.problems)
+        shas, problems = e.shas, e.problems
+    keep = {"Translated/" + g + ".lean" for g in groups} | ({"Translated.lean"} if check is None else set())
+    ctx.gen_tables.update({k: v for k, v in shas.items() if k in keep})
+    ctx.proof_problems.extend(p for p in problems if p["group"] in groups)
+
+
+def wire(ctx, check):
+    """`m, t = translate.wire(ctx, "C16"); ctx.prove([...] + m); ctx.require_theorems([...] + t)`"""
+    regen_into(ctx, check=check)
+    m, t = BY_CHECK.get(check, ([], []))
+    return list(m), list(t)
 
 
 if __name__ == "__main__":
@@ -328,6 +484,16 @@ def _cases(rng, n):
                     f"{{ ipv6 := {_bool(me.ipv6)}, server_ip := {_b(me.server_ip)}, server_port := {me.server_port}, "
                     f"server_mac_addr := {_b(me.server_mac_addr)}, client_ip := {_b(me.client_ip)}, client_port := {me.client_port}, "
                     f"client_mac_addr := {_b(me.client_mac_addr)} }}"))
+        # Session.handle_packet (a `Seg` stands for the packet object: only its identity and `seq` matter here)
+        seen_s, seen_c = [rng.randrange(4) for _ in range(rng.randint(0, 3))], [rng.randrange(4) for _ in range(rng.randint(0, 3))]
+        pk2 = NS(seq=rng.randrange(4), ip_src=rng.choice(ips), sport=rng.choice([443, 5000]))
+        me = NS(server_ip=rng.choice(ips), server_port=rng.choice([443, 5000]), seen_packets_server=list(seen_s),
+                seen_packets_client=list(seen_c), packet_buffer=[])
+        call(ses.Session.handle_packet, me, pk2)
+        seg = f"(⟨0, {pk2.seq}, []⟩ : TLX.Reassembly.Seg)"
+        out.append(("session_handle_packet", f"{seg} {pk2.seq} {_b(pk2.ip_src)} {pk2.sport} {_b(me.server_ip)} {me.server_port} {seen_s} {seen_c} []",
+                    f"{{ seen_packets_server := {me.seen_packets_server}, seen_packets_client := {me.seen_packets_client}, "
+                    f"packet_buffer := [{seg if me.packet_buffer else ''}] }}"))
         # handle_alert / handle_tls_client_hello
         ver = rng.choice([None] + list(vers))
         me = NS(tls_version=ver, can_decrypt=rng.random() < 0.5, client_hello_seen=rng.random() < 0.5)
@@ -393,7 +559,8 @@ def selftest(n=60, seed=0):
     path = os.path.join(fw.LEAN, ".audit", "tr_selftest.lean")
     os.makedirs(os.path.dirname(path), exist_ok=True)
     with open(path, "w") as fh:
-        fh.write("import TLX.Gen.Translated\nopen TLX TLX.PyRt TLX.Gen.Py\nset_option maxRecDepth 100000\n")
+        fh.write("".join(f"import TLX.Gen.Translated.{g}\n" for g in GROUPS)
+                 + "open TLX TLX.PyRt TLX.Gen.Py\nset_option maxRecDepth 100000\n")
         for i, (name, args, exp) in enumerate(cases):
             fh.write(f"#eval IO.println s!\"TR {i} {{decide ({name} {args} = {exp})}}\"\n")
     rc, outp = fw.sh(["lake", "env", "lean", path], cwd=fw.LEAN)
